@@ -601,6 +601,71 @@ func (ex *Exec) enterLoop(st *State, h *ssa.BasicBlock, pred *ssa.BasicBlock) bo
 	return true
 }
 
+// guardedAccess emits the lock-set obligation of a `guarded` declaration for an access to a guarded field.
+func (ex *Exec) guardedAccess(st *State, stT types.Type, field string, in ssa.Instruction) {
+	if ex.collect || len(ex.eng.guards()) == 0 {
+		return
+	}
+	named, ok := types.Unalias(stT).(*types.Named)
+	if !ok || named.Obj().Pkg() == nil {
+		return
+	}
+	for _, g := range ex.eng.guards() {
+		if g.typ != named.Obj().Name() || g.pkg != named.Obj().Pkg().Path() || !g.fields[field] {
+			continue
+		}
+		if g.except[ex.fn.Name()] || g.except[st.top().fn.Name()] {
+			continue
+		}
+		owner := ex.ownerInScope(st, g)
+		if owner == nil {
+			continue // no owner value in scope: the caller's obligation
+		}
+		e, err := parseExpr("guardOwner__." + g.lock)
+		if err != nil {
+			ex.fail("guarded: %v", err)
+		}
+		fr := st.top()
+		env := ex.envFor(st, fr, map[string]*Val{"guardOwner__": owner})
+		held := env.eval(e)
+		ex.oblige(st, "guarded", g.label+" "+g.typ+"."+field, g.tags, held.T, "guarded "+g.src, ex.eng.pos(in.Pos()))
+	}
+}
+
+// ownerInScope finds a value of type *Owner among the parameters and captured variables of the frames on the stack.
+func (ex *Exec) ownerInScope(st *State, g *guardDecl) *Val {
+	isOwner := func(t types.Type) bool {
+		p, ok := t.Underlying().(*types.Pointer)
+		if !ok {
+			return false
+		}
+		n, ok := types.Unalias(p.Elem()).(*types.Named)
+		return ok && n.Obj().Name() == g.owner && n.Obj().Pkg() != nil && n.Obj().Pkg().Path() == g.pkg
+	}
+	for i := len(st.frames) - 1; i >= 0; i-- {
+		fr := st.frames[i]
+		for _, p := range fr.fn.Params {
+			if isOwner(p.Type()) {
+				if v, ok := fr.vals[p]; ok {
+					return v
+				}
+			}
+		}
+		for j, fv := range fr.fn.FreeVars {
+			if j >= len(fr.binds) {
+				break
+			}
+			if isOwner(fv.Type()) {
+				return fr.binds[j]
+			}
+			if p, ok := fv.Type().Underlying().(*types.Pointer); ok && isOwner(p.Elem()) {
+				return ex.derefBind(st, fr.binds[j], fv.Type())
+			}
+		}
+	}
+	return nil
+}
+
 // isCountedPhi: an int phi at a loop head that enters as the constant 0 and is incremented by 1 on every back edge.
 func isCountedPhi(phi *ssa.Phi, h *ssa.BasicBlock) bool {
 	b, ok := phi.Type().Underlying().(*types.Basic)
@@ -894,6 +959,7 @@ func (ex *Exec) step(st *State, in ssa.Instruction) []*State {
 		f := stT.Underlying().(*types.Struct).Field(x.Field)
 		a := ex.addrOf(st, base, stT, in)
 		set(x, &Val{K: VAddr, A: a.field(f.Name(), f.Type()), Ty: x.Type()})
+		ex.guardedAccess(st, stT, f.Name(), in)
 	case *ssa.Field:
 		base := ex.val(st, x.X)
 		if base.K != VStruct {
